@@ -55,24 +55,26 @@ theorem cut_ext {st st2 : St} {data : Str} {a : Nat} {b : Int} {X : Str} (hext :
 /-- the element of a match after the nested `__handleInline` calls -/
 theorem el_nested {hi : HI} (hhi : HISpec L hi) {st sta stb : St} {n n1 : Node} {kids : List Node} {pi : Nat}
     (hs : stashOk L st.stash = true) (hn : nodeOk L st.stash.length n = true) (ht : n.tail = none)
-    (hna : kidsNonAtomic n.children = true)
+    (hna : kidsNonAtomic n.children = true) (hat : n.attrs = [])
     (h1 : hiNode hi pi { n with children := [] } st = some (n1, sta))
     (h2 : hiNodes hi pi n.children sta = some (kids, stb)) :
     (∃ e, stb.stash = st.stash ++ e) ∧ stashOk L stb.stash = true ∧
       nodeOk L stb.stash.length { n1 with children := kids } = true ∧
-      ({ n1 with children := kids } : Node).tail = none ∧ kidsNonAtomic kids = true ∧
+      stb.html = st.html ∧
+      ({ n1 with children := kids } : Node).tail = none ∧ n1.attrs = [] ∧ kidsNonAtomic kids = true ∧
       lettersN L stb.stash { n1 with children := kids } = lettersN L st.stash n := by
   have hn' := nodeOk_iff.1 hn
   have hn0 : nodeOk L st.stash.length { n with children := [] } = true := by
     rw [nodeOk_iff]; exact ⟨hn'.1, hn'.2.1, rfl⟩
   have s1 := hiNode_spec hhi hs hn0 h1
   have hle1 := ext_length s1.ext
-  obtain ⟨ext2, sok2, kok2, lk2, na2⟩ := hiNodes_spec hhi pi _ _ _ _ s1.sok (kidsOk_mono hle1 _ hn'.2.2) h2
+  obtain ⟨ext2, sok2, kok2, lk2, na2, hh2⟩ := hiNodes_spec hhi pi _ _ _ _ s1.sok (kidsOk_mono hle1 _ hn'.2.2) h2
   have hle2 := ext_length ext2
   obtain ⟨x1, hx1⟩ := s1.ext
   obtain ⟨x2, hx2⟩ := ext2
   have hn1 := nodeOk_iff.1 s1.nok
-  refine ⟨⟨x1 ++ x2, by rw [hx2, hx1, List.append_assoc]⟩, sok2, ?_, s1.tailNone ht, na2 hna, ?_⟩
+  refine ⟨⟨x1 ++ x2, by rw [hx2, hx1, List.append_assoc]⟩, sok2, ?_, by rw [hh2, s1.html], s1.tailNone ht,
+    by rw [s1.attrs]; exact hat, na2 hna, ?_⟩
   · rw [nodeOk_iff]; exact ⟨ok_mono hle2 hn1.1, ok_mono hle2 hn1.2.1, kok2⟩
   · rw [lettersN_eq, lettersN_eq]
     simp only []
@@ -82,9 +84,9 @@ theorem el_nested {hi : HI} (hhi : HISpec L hi) {st sta stb : St} {n n1 : Node} 
 theorem put_el {st st1 st' : St} {data data' : Str} {f : Found} {n n' : Node}
     (hd : ok L st.stash.length data = true)
     (hcut : Cut L st.stash data f.start f.stop (letters L (nodeFlat (table st.stash) n)))
-    (hext : ∃ e, st1.stash = st.stash ++ e) (sok1 : stashOk L st1.stash = true)
+    (hext : ∃ e, st1.stash = st.stash ++ e) (hhtml : st1.html = st.html) (sok1 : stashOk L st1.stash = true)
     (nok1 : nodeOk L st1.stash.length n' = true) (tail1 : n'.tail = none)
-    (na1 : kidsNonAtomic n'.children = true)
+    (at1 : n'.attrs = []) (na1 : kidsNonAtomic n'.children = true)
     (let1 : lettersN L st1.stash n' = lettersN L st.stash n)
     (h1 : data.take f.start ++ (stashNode st1 (.node n')).1 ++ pyDrop data f.stop = data')
     (h4 : (stashNode st1 (.node n')).2 = st') : Conserves L st data st' data' := by
@@ -92,12 +94,12 @@ theorem put_el {st st1 st' : St} {data data' : Str} {f : Found} {n n' : Node}
   subst h1; subst h4
   rw [c2, c3]
   have hit : itemOk L st1.stash.length (.node n') = true := by
-    simp only [itemOk, Bool.and_eq_true]; exact ⟨⟨nok1, by rw [tail1]; rfl⟩, na1⟩
+    simp only [itemOk, Bool.and_eq_true]; exact ⟨⟨⟨nok1, by rw [tail1]; rfl⟩, by rw [at1]; rfl⟩, na1⟩
   have hput := stash_put (it := .node n') (M := M) sok1 hit c4 c5
     (by rw [← c1, c6]; simp only [itemText]; simp only [lettersN] at let1; rw [let1])
   rw [← c1] at hput
   have h0 : Conserves L st data st1 data :=
-    ⟨hext, sok1, ok_mono (ext_length hext) hd, lettersF_ext hext hd⟩
+    ⟨hext, sok1, ok_mono (ext_length hext) hd, lettersF_ext hext hd, hhtml⟩
   exact h0.trans hput
 
 theorem applyPattern_spec (hL : LetterClass L) {cfg : Cfg} (hE : EscNotLetter L cfg) {hi : HI} (hhi : HISpec L hi)
@@ -136,10 +138,10 @@ theorem applyPattern_spec (hL : LetterClass L) {cfg : Cfg} (hE : EscNotLetter L 
       exact this
     · rename_i n hnode
       rw [hnode] at hfo
-      obtain ⟨htail, hnok, hna, hcut⟩ := hfo
+      obtain ⟨htail, hnok, hattrs, hna, hcut⟩ := hfo
       by_cases hc : (n.text.isSome && n.textAtomic) = true
       · simp only [hc, if_true, Option.some.injEq, Prod.mk.injEq] at h
-        exact put_el hd hcut ⟨[], by simp⟩ hs hnok htail hna rfl h.1 h.2.2.2
+        exact put_el hd hcut ⟨[], by simp⟩ rfl hs hnok htail hattrs hna rfl h.1 h.2.2.2
       · simp only [hc] at h
         cases hh1 : hiNode hi pi { n with children := [] } st2 with
         | none => simp [hh1] at h
@@ -151,8 +153,8 @@ theorem applyPattern_spec (hL : LetterClass L) {cfg : Cfg} (hE : EscNotLetter L 
           | some x2 =>
             obtain ⟨kids, stb⟩ := x2
             simp only [hh2, Bool.false_eq_true, ↓reduceIte, Option.some.injEq, Prod.mk.injEq] at h
-            obtain ⟨hext, sok1, nok1, tail1, na1, let1⟩ := el_nested hhi hs hnok htail hna hh1 hh2
-            exact put_el hd hcut hext sok1 nok1 tail1 na1 let1 h.1 h.2.2.2
+            obtain ⟨hext, sok1, nok1, hh, tail1, at1, na1, let1⟩ := el_nested hhi hs hnok htail hna hattrs hh1 hh2
+            exact put_el hd hcut hext hh sok1 nok1 tail1 at1 na1 let1 h.1 h.2.2.2
 
 /-! ### the pattern loop -/
 
